@@ -301,6 +301,7 @@ class Interp:
             idx = self.eval(st, target.slice)
             if isinstance(obj, VHeapDict):
                 k = eng.coerce(st, idx, obj.kk)
+                self.emit(st, "dict.set", target, dict_key=obj.key, owner=obj.ref, key=k, value=v, held=list(st.held))
                 obj.set(eng, st, k.t, v)
                 return
             if isinstance(obj, VDict):
@@ -387,6 +388,11 @@ class Interp:
             v = VExc(v.name)
         if isinstance(v, VVal):
             v = self.eng.unbox(st, v)
+        if isinstance(v, VVal):
+            # re-raise of a stored exception object whose class is not tracked: representative classes
+            classes = getattr(self.contract, "opaque_raise_classes", None) or ["OtherException"]
+            k = self.eng.choose(st, len(classes), f"opaque-raise@{node.lineno}", classes) if len(classes) > 1 else 0
+            v = VExc(classes[k], tag={"opaque": True})
         if not isinstance(v, VExc):
             raise Unsupported(f"{self.site(node)}: raise of {v!r}")
         if node.cause is not None:
@@ -410,6 +416,7 @@ class Interp:
                     has = obj.has(eng, st, k.t)
                     if not eng.branch(st, has, f"del-key-present@{t.lineno}"):
                         eng.raise_(st, "KeyError", tag={"site": self.site(t)})
+                    self.emit(st, "dict.del", t, dict_key=obj.key, owner=obj.ref, key=k, held=list(st.held))
                     obj.delete(eng, st, k.t)
                     continue
                 if isinstance(obj, VRef):
